@@ -132,7 +132,8 @@ def check_C14(res):
 def l2_campaign(res, pid, ntraces, length, profile, project=None, traces=None, oracle=None):
     """generates traces, runs implementation and model, compares (optionally projected);
     oracle(trace, impl_steps) -> list of (description, replay) property failures on the implementation itself"""
-    rng = random.Random(res.seed ^ hash(pid) % 100000)
+    import zlib
+    rng = random.Random(res.seed ^ (zlib.crc32(pid.encode()) % 100000))
     if traces is None:
         traces = []
     corpus_dir = os.path.join(irc.VERIF, "corpus", pid)
@@ -370,7 +371,14 @@ def c03_oracle(t, steps):
         prev_dump = dump
     # password / mask requirement: the probing connection (1) registers as zed only with the right credentials
     cfg = t.cfg
-    uc = [u for u in cfg.users if u["name"] == "zed"]
+    # the user name connection 1 presented (the probing cases use "zed"; random histories may use any configured user)
+    uname = "zed"
+    for e in t.events:
+        if e[0] == "L" and e[1] == 1 and isinstance(e[2], str) and e[2].upper().startswith("USER "):
+            ws = e[2].split()
+            if len(ws) > 1:
+                uname = ws[1]
+    uc = [u for u in cfg.users if u["name"] == uname]
     need = (uc[0].get("password") if uc and uc[0].get("password") else None) or cfg.password
     mask = uc[0].get("mask") if uc else None
     passes = [e[2].split(" ", 1)[1] for e in t.events if e[0] == "L" and e[1] == 1 and isinstance(e[2], str) and e[2].upper().startswith("PASS ")]
@@ -3411,10 +3419,13 @@ def check_C20(res):
             res.violation("plain / TLS transcripts could not be taken: %r" % ({k: (v if not isinstance(v, dict) else "ok") for k, v in views.items()},),
                           {"kind": "binary"}, found=False)
     # behaviour under random configurations, against the model
-    prof = {"weights": dict(JOIN=10, OPER=5, PRIVMSG=4, MODE=4, NICK=2, MISC=2, WHOIS=2, UMODE=2), "p_users": 0.6, "p_operators": 0.7, "p_channels": 0.7,
-            "p_default_mode": 0.6, "p_max_joins": 0.6, "p_password": 0.4}
+    prof = {"weights": dict(JOIN=14, PART=8, OPER=5, PRIVMSG=4, MODE=4, NICK=2, MISC=2, WHOIS=2, UMODE=2), "p_users": 0.6, "p_operators": 0.7, "p_channels": 0.8,
+            "p_default_mode": 0.6, "p_max_joins": 0.7, "p_password": 0.4}
     ntr = 40 if res.tier == "quick" else 500
-    r = l2_campaign(res, "C20", ntr, 40, prof, oracle=welcome_oracle)
+    def cfg_oracle(t, steps):
+        # the settings must govern behaviour: welcome burst, and max_joins / predefined channels through the admission rule and the membership relation
+        return welcome_oracle(t, steps) + join_oracle(t, steps) + inv_oracle(t, steps)
+    r = l2_campaign(res, "C20", ntr, 40, prof, oracle=cfg_oracle)
     res.coverage.update({
         "evaluations": len(cases) + len(hs_) + len(ver) + len(started) + r["steps"],
         "distinct_nontrivial": len(set(fl)) + len(set(hs_)) + r["traces"],
@@ -3433,7 +3444,8 @@ def check_C20(res):
 # ====================================================================== C17
 import threading
 
-KA_PATTERNS = ["always", "never", "late_ok", "late_bad", "stop_after_2", "odd_token", "chatter_never", "unsolicited_then_never", "stop_after_1_chatter"]
+KA_PATTERNS = ["always", "never", "late_ok", "late_bad", "stop_after_2", "odd_token", "chatter_never", "unsolicited_then_never", "stop_after_1_chatter",
+               "slow_register_always"]
 
 
 def ka_client(port, nick, pattern, ping, pong, t_end, out):
@@ -3450,7 +3462,14 @@ def ka_client(port, nick, pattern, ping, pong, t_end, out):
     except OSError as e:
         rec["failed"] = repr(e)
         return
-    s.sendall(("NICK %s\r\nUSER %s 8 * :%s\r\n" % (nick, nick, pattern)).encode())
+    reg_line = ("NICK %s\r\nUSER %s 8 * :%s\r\n" % (nick, nick, pattern)).encode()
+    reg_at = 0
+    if pattern == "slow_register_always":
+        # registration completes only after more than ping_timeout has passed since the connection was opened
+        reg_at = ping * 1000 + 300
+        t_end += reg_at
+    else:
+        s.sendall(reg_line)
     buf = b""
     pending = []     # scheduled pong send times (ms)
     answered = 0
@@ -3461,6 +3480,12 @@ def ka_client(port, nick, pattern, ping, pong, t_end, out):
         t = now()
         if t >= t_end:
             break
+        if reg_at and t >= reg_at:
+            reg_at = 0
+            try:
+                s.sendall(reg_line)
+            except OSError:
+                pass
         due = [p for p in pending if p[0] <= t]
         for p in due:
             pending.remove(p)
@@ -3503,7 +3528,7 @@ def ka_client(port, nick, pattern, ping, pong, t_end, out):
                 k = answered
                 tok = m.group(1)
                 reply = None
-                if pattern == "always":
+                if pattern in ("always", "slow_register_always"):
                     reply = (tl, "PONG :" + tok)
                 elif pattern == "late_ok":
                     reply = (tl + int(pong * 500), "PONG :" + tok)
@@ -3600,8 +3625,8 @@ def check_C17(res):
                 continue
             evs = sorted(r["events"], key=lambda e: e[0])
             horizon = (r["eof"] if r["eof"] is not None else max([e[0] for e in evs] + [0]) + 1)
-            t_end = int((max(4 * ping, 2 * ping + pong) + 1.2) * 1000)
-            horizon = t_end if r["eof"] is None else t_end
+            t_end = int((max(4 * ping, 2 * ping + pong) + 1.2) * 1000) + (ping * 1000 + 300 if r["pattern"] == "slow_register_always" else 0)
+            horizon = t_end
             flat.append(r)
             cases.append("KA %d %d %s" % (pong * 1000, horizon, " ".join("%d:%s" % e for e in evs)))
     pred = run_pure(cases, model=True)
@@ -3610,7 +3635,7 @@ def check_C17(res):
     for r, p, case in zip(flat, pred, cases):
         ping, pong = r["ping"], r["pong"]
         evs = sorted(r["events"], key=lambda e: e[0])
-        pings = [t for t, k in evs if k == "P"]
+        pings = [t for t, k in evs if k == "P" and t >= r["reg"]]
         # PING schedule: registration + k * ping_timeout
         for k, t in enumerate(pings, start=1):
             want = r["reg"] + k * ping * 1000
@@ -3934,6 +3959,60 @@ def check_C18(res):
                     if rc in ordc and got and got != list(range(K)) or (rc not in ordc and got != list(range(K))):
                         if got != list(range(K)):
                             bad("messages from %s reach %s as sequence %r (0..%d in order expected)" % (names[snd], names[rc], got, K - 1), {"round": rd})
+            # G. a client that pipelines long queries and never reads must not stall anybody else
+            if rd == 0:
+                import fcntl, termios, struct
+                ls_ = socket.socket()
+                ls_.setsockopt(socket.SOL_SOCKET, socket.SO_RCVBUF, 4096)
+                ls_.connect(("127.0.0.1", port))
+                ls_.sendall(b"NICK lazy\r\nUSER l 8 * :l\r\n")
+                _time.sleep(0.3)
+                w.send("".join("JOIN #pub%d\r\n" % k for k in range(80)))
+                pump_all([w], quiet=0.3, tmo=5.0)
+                blob = ("LIST\r\nNAMES\r\nWHO *\r\n" * 6000).encode()
+                ls_.setblocking(False)
+                sent = 0
+                t0 = _time.time()
+                while sent < len(blob) and _time.time() - t0 < 3.0:
+                    try:
+                        sent += ls_.send(blob[sent:sent + 65536])
+                    except (BlockingIOError, OSError):
+                        _time.sleep(0.01)
+                # wait until the server has stopped writing to the lazy socket (its kernel buffers are full)
+                def queued():
+                    try:
+                        return struct.unpack("i", fcntl.ioctl(ls_.fileno(), termios.FIONREAD, b"\0\0\0\0"))[0]
+                    except OSError:
+                        return -1
+                last, since = -2, _time.time()
+                t0 = _time.time()
+                while _time.time() - t0 < 8.0:
+                    q = queued()
+                    if q != last:
+                        last, since = q, _time.time()
+                    elif _time.time() - since > 0.8 and q > 0:
+                        break
+                    _time.sleep(0.05)
+                stats["lazy_reader_requests_bytes"] = sent
+                stats["lazy_reader_unread_bytes"] = max(last, 0)
+                probes = cs[:6]
+                marks = {c: len(c.lines) for c in probes}
+                for c in probes:
+                    c.send("JOIN #lz%d\r\nPING lazy%d\r\n" % (rd, rd))
+                for c in probes:
+                    if not c.wait_for(lambda l: l.endswith(":lazy%d" % rd), tmo=8, start=marks[c]) or \
+                       not any(" JOIN #lz%d" % rd in l for l in c.lines[marks[c]:]):
+                        bad("while one client pipelines long queries without reading its socket, another connection's JOIN is not carried out / answered", {"round": rd, "nick": names[c]})
+                        break
+                n1 = BConn(port)
+                n1.send("NICK fresh%d\r\nUSER f 8 * :f\r\n" % rd)
+                if not n1.wait_for(lambda l: " 001 " in l, tmo=8):
+                    bad("while one client pipelines long queries without reading its socket, a new connection cannot register", {"round": rd})
+                n1.close()
+                try:
+                    ls_.close()
+                except OSError:
+                    pass
             # E. every live connection is still served
             for c in cs:
                 c.send("PING alive%d\r\n" % rd)
@@ -3985,7 +4064,7 @@ def check_C18(res):
         "evaluations": sum(stats.values()) + r["steps"], "distinct_nontrivial": rounds * 5 + r["traces"],
         "rule": "burst scenarios against the real multi-threaded binary, with 4 bystanders keeping the state lock contended: per round %d connections claim one nickname at the same moment (exactly one 001, "
                 "the rest 433), all JOIN one new channel at once (all members, exactly one founder), all JOIN a +l 3 channel at once (3 admitted, the rest 471), 8 of them pipeline 12 numbered PRIVMSG/PING pairs "
-                "(PONG tokens in order on each socket; per sender->receiver pair the sequence 0..11 in order), every connection answers PING afterwards, NAMES and WHO agree; %d rounds; plus the scan of "
+                "(PONG tokens in order on each socket; per sender->receiver pair the sequence 0..11 in order), every connection answers PING afterwards, NAMES and WHO agree, and (first round) a client that pipelines 12000 LIST/NAMES/WHO queries over 80 channels without ever reading its socket must not keep others from being answered or registering; %d rounds; plus the scan of "
                 "lock acquisitions per handler against inventory/lock_shape.json; plus %d sequential histories against the model" % (N, rounds, r["traces"]),
         "traces_validated_against_impl": r["traces"], "burst": dict(stats), "lock_shape_functions": len(shape), "lock_shape_diff": sdiff,
         "samples": [{"round": 0, "claims": N, "channel": "#race0", "limit_channel": "#lim0"}],
